@@ -36,6 +36,25 @@ ASSUMPTIONS = ["connector variables are scalar Real (arrays of connectors / arra
 
 SEP = G.SEP
 
+# Which rule takes flows off the "unconnected" list: "name" = the code as it stands (C09-F1 open),
+# "face" = the code with proposed_fixes/C09-1.diff.  The Lean model has both (theorems for both);
+# "auto" observes the real code once per run on a three-line nested model and records what it saw.
+POP_POLICY = "auto"
+_policy = {}
+
+
+def pop_policy(ctx):
+    if POP_POLICY != "auto":
+        return POP_POLICY
+    if "p" not in _policy:
+        probe = ("connector P Real v; flow Real i; end P;\nmodel L P a; end L;\n"
+                 "model C P p; L r; equation connect(p, r.a); end C;\nmodel T C c; end T;\n")
+        real = run_real(probe, "T")
+        zero = any(set(f) == {"c.p.i"} for f in real.get("forms", []))
+        _policy["p"] = "face" if zero else "name"
+        ctx.extra["pop_policy_observed"] = _policy["p"]
+    return _policy["p"]
+
 
 # ---- exact linear algebra -----------------------------------------------------------------
 def rref(rows, cols):
@@ -252,11 +271,15 @@ def run_real(text, top):
     return {"raised": None, "forms": forms, "symbols": symbols, "flow_syms": flow_syms}
 
 
-def model_request(case, inst):
+def model_request(case, inst, policy="name"):
+    # `vars` is the flattened symbol list of the left connector class as expand_connectors sees it:
+    # flatten_symbols has already stripped `input`/`output` from symbols below the top level, and the
+    # variables of a connector instance are always below the top level.
     cts = case["ctypes"]
-    return {"op": "connect.expand", "flowSyms": inst.flows,
+    return {"op": "connect.expand", "flowSyms": inst.flows, "policy": policy,
             "edges": [{"pre": e["pre"], "l": e["l"], "r": e["r"],
-                       "vars": [[vn, pf] for vn, pf in cts[e["ctype"]]]} for e in inst.edges]}
+                       "vars": [[vn, [q for q in pf if q not in ("input", "output")]] for vn, pf in cts[e["ctype"]]]}
+                      for e in inst.edges]}
 
 
 def canon_connect_forms(forms, inst):
@@ -395,7 +418,7 @@ def check_case(ctx, case, drv, count=True):
 
     # (C) correspondence with the Lean model
     if drv is not None:
-        ans = drv.ask(model_request(case, inst))
+        ans = drv.ask(model_request(case, inst, pop_policy(ctx)))
         if not ans.get("ok"):
             from harness.common import HarnessError
             raise HarnessError("model driver rejected the case: %s" % json.dumps(ans)[:400])
